@@ -239,4 +239,45 @@ def pump (v : Variant) (s : Sess) : Option (Sess × List UpdObs) :=
       | some c => (sendUpdate v s c).map fun (s', o) => (s', match o with | some o => obs ++ [o] | none => obs))
     (some (s, []))
 
+/-! ### histories -/
+
+/-- executable well-formedness of an application-supplied cursor: bitmap sizes match the
+declared size, and there are pixels to paint from -/
+def Cursor.wfb (c : Cursor) : Bool :=
+  c.mask.size == rowBytes c.w * c.h &&
+  (match c.rich with | some r => r.size == c.w * c.h | none => true) &&
+  (match c.source with | some r => r.size == rowBytes c.w * c.h | none => true) &&
+  (match c.alpha with | some a => a.size == c.w * c.h | none => true) &&
+  (c.rich.isSome || c.source.isSome)
+
+/-- the operations of a session; ill-formed ones (duplicate client id, rectangle outside the
+screen, ill-formed cursor) are ignored, as the harness answers `bad-op` -/
+inductive Op where
+  | client (id : Nat) (k : ClientKind)
+  | ptr (id x y buttons : Nat)
+  | req (id : Nat) (incr : Bool) (r : Rect)
+  | draw (r : Rect) (val : Nat → Nat → Px)
+  | cursor (c : Option Cursor)
+  | failnext (id : Nat)
+  | pump
+
+def Rect.inside (r : Rect) (W H : Nat) : Bool :=
+  decide (r.x1 < r.x2) && decide (r.y1 < r.y2) && decide (r.x2 ≤ W) && decide (r.y2 ≤ H)
+
+def applyOp (v : Variant) (s : Sess) : Op → Option Sess
+  | .client id k => if s.clients.any (fun c => c.id == id) then some s else some (newClient s id k)
+  | .ptr id x y b => if s.clients.any (fun c => c.id == id) then some (ptrEvent s id x y b) else some s
+  | .req id incr r => if r.inside s.scr.w s.scr.h then some (request s id incr r) else some s
+  | .draw r val => if r.inside s.scr.w s.scr.h then draw s r val else some s
+  | .cursor c =>
+    match c with
+    | none => some (setCursor s none)
+    | some c => if c.wfb then some (setCursor s (some c)) else some s
+  | .failnext id => some { s with failArmed := some id }
+  | .pump => (pump v s).map (·.1)
+
+def runOps (v : Variant) (s : Sess) : List Op → Option Sess
+  | [] => some s
+  | op :: ops => (applyOp v s op).bind fun s' => runOps v s' ops
+
 end VncModel.Cursor
